@@ -19,8 +19,22 @@ def gen_case(seed, i):
     if r < .5:
         cs = gen.gen_settings(rnd, n_src=(1, 2), n_tgt=(1, 3), p_patterns=.6, p_override=.15,
                               alphabet=gen.DEG_ALPHABET[:9], p_parallel=.1)
-    elif r < .8:
+    elif r < .8 and not (r > .7 and i % 3 == 0):
         cs = gen.gen_settings(rnd, n_src=(1, 3), n_tgt=(1, 2), p_patterns=.6, p_override=.2, p_parallel=.1)
+    elif r < .8:
+        # scenarios in which the SAME connectors exist and only a degree override differs (what a grouping connector
+        # with conditional members produces); every third case also runs with the candidate faults that leave only
+        # lazy encoders, whose imputers memoise per scenario
+        cs = gen.gen_settings(rnd, n_src=(1, 2), n_tgt=(2, 3), p_patterns=0., alphabet=gen.DEG_ALPHABET[:9], p_parallel=0.)
+        ns, nt = len(cs['src']), len(cs['tgt'])
+        pats = [{'src_exists': [True] * ns, 'tgt_exists': [True] * nt, 'src_override': {}, 'tgt_override': {}}]
+        for _ in range(rnd.randint(1, 2)):
+            side, n_ = rnd.choice([('src', ns), ('tgt', nt)])
+            p_ = {'src_exists': [True] * ns, 'tgt_exists': [True] * nt, 'src_override': {}, 'tgt_override': {}}
+            p_[side + '_override'][str(rnd.randrange(n_))] = sorted(rnd.sample(range(4), rnd.randint(1, 2)))
+            if gen.pattern_key(p_) not in [gen.pattern_key(q) for q in pats]:
+                pats.append(p_)
+        cs['patterns'] = pats
     elif r < .84:
         # nearly degenerate: one open-ended node against a few nodes that are (almost) pinned -- a handful of
         # connection sets; candidate codings that recognise the shape may end up with a one-valued variable
@@ -146,7 +160,12 @@ def check_working(mgr, cs, col, where, label):
     refs = [set(R.settings_matrices(cs, p)) for p in pats]
     dvs = [int(dv.n_opts) for dv in mgr.design_vars]
     where = dict(where, encoder=type(mgr.encoder).__name__)
-    if max(len(r) for r in refs) <= 1 and dvs:
+    # (not judged for selections under a tiny limit: the selector decides "nothing to choose" from a count that is itself
+    # time-limited, so with a limit of milliseconds the outcome depends on machine load; counted instead)
+    tiny = label.startswith('limit_') or label == 'all_slow'
+    if max(len(r) for r in refs) <= 1 and dvs and tiny:
+        col.count('variables_for_single_set_under_tiny_limit_not_judged')
+    if max(len(r) for r in refs) <= 1 and dvs and not tiny:
         col.violation('variables_declared_for_at_most_one_connection_set', cs,
                       {'dvs': dvs, 'n_matrices': [len(r) for r in refs], 'encoder': str(mgr.encoder), 'via': label}, [],
                       where=where)
@@ -596,7 +615,36 @@ def family_settings(quick):
     return out
 
 
+def override_family(col):
+    """Scenarios in which the same connectors exist and only a degree override differs, selected with the candidate
+    faults that leave only lazy encoders (their imputers memoise per scenario): the coding must work for each scenario,
+    whichever was decoded first on the manager."""
+    fam = []
+    for deg in ({'min': 0, 'max': 2}, {'list': [0, 1, 2]}, {'min': 0, 'max': 1}):
+        for ov_side, ov in (('src', [2]), ('src', [1]), ('tgt', [1, 2]), ('tgt', [0])):
+            cs = {'src': [{'deg': dict(deg), 'rep': True}, {'deg': dict(deg), 'rep': False}],
+                  'tgt': [{'deg': dict(deg), 'rep': True}, {'deg': {'min': 0, 'max': 2}, 'rep': False}],
+                  'excluded': [], 'max_conn_parallel': None,
+                  'patterns': [{'src_exists': [True, True], 'tgt_exists': [True, True], 'src_override': {}, 'tgt_override': {}},
+                               {'src_exists': [True, True], 'tgt_exists': [True, True], 'src_override': {}, 'tgt_override': {}}]}
+            cs['patterns'][1][ov_side + '_override'] = {'0': list(ov)}
+            fam.append(cs)
+    for cs in fam:
+        for kind in ('all_but_lazy_raise', 'only_lazy_conn_idx'):
+            restore = inject_faults(kind)
+            try:
+                col.evaluations += 1
+                col.count('monitor_override_family_selections')
+                m, _ = select(cs, col, dict(fault=kind, family='override'), timeout=10, cache=False, label='fault_' + kind)
+                if m is not None:
+                    check_working(m, cs, col, dict(fault=kind, family='override'), 'fault_' + kind)
+            finally:
+                restore()
+
+
 def family_case(task, col):
+    if task['which'] == 0:
+        common.guard(col, override_family, col)
     fam = family_settings(task['quick'])
     for j in range(task['which'], len(fam), task['of']):
         cs = fam[j]
